@@ -17,6 +17,14 @@ from modgen import *
 
 INT_IDS = [0, 1, 2, 3, 4, 5, 7, 9, 10, 100, 127, 128, 255, 256, 300, 32767, 32768, 65535, 65536, 70000,
            -1, -2, -5, -128, -129, -32768, -32769, 2**31 - 1, 2**31, -2**31, -2**31 - 1, 2**32, 2**40, 2**62, -2**62]
+# identifiers at the boundaries of every representation an identifier cell can have (one / two / three / four / five
+# content octets, signed and unsigned reading, int / long), both signs
+BOUNDARY_IDS = [0, 1, 127, 128, 255, 256, 32767, 32768, 65535, 65536, 2**31 - 1, 2**31, 2**32 - 1,
+                -1, -128, -129, -32768, -32769]
+# what asn1c accepts under -fwide-types (INTEGER_t cells): 0..32767; boundaries first, then pairs that differ by 256 / in one octet
+WIDE_BOUNDARY_IDS = [0, 1, 127, 128, 255, 256, 32767]
+WIDE_IDS = WIDE_BOUNDARY_IDS + [2, 3, 5, 100, 126, 129, 200, 254, 257, 300, 383, 384, 511, 512, 1000, 16383, 16384, 32512, 32639, 32640, 32766]
+ENUM_IDS = [0, 1, 2, 5, 127, 128, 200, 255, 256, 300, 32767, 32768, 65535, 65536, -1, -3, -128, -129, -32768, -32769, 2**31 - 1, -2**31]
 OID_IDS = [(1, 2, 3), (1, 2, 840, 113549), (2, 999, 1), (0, 0), (1, 3, 6, 1, 4, 1), (2, 5, 4, 3), (1, 2, 3, 4), (0, 39, 16383),
            (2, 100, 3), (1, 0, 8571, 2), (1, 2), (2, 5, 29, 15)]
 
@@ -42,27 +50,66 @@ def der_len(n):
 
 
 def id_universal_der(kind, v):
-    """the identifier value under its universal tag (what `sel` is given)"""
-    if kind == "int":
-        n = max(1, (v.bit_length() + 8) // 8) if v >= 0 else max(1, ((-v - 1).bit_length() + 8) // 8)
-        c = v.to_bytes(n, "big", signed=True)
-        return bytes([2]) + der_len(len(c)) + c
+    """the identifier value under its universal tag (what `sel` is given); bytes = raw contents octets"""
+    if kind in ("int", "enum"):
+        c = v if isinstance(v, bytes) else int_octets(v)
+        return bytes([2 if kind == "int" else 10]) + der_len(len(c)) + c
     c = oid_contents(v) if isinstance(v, tuple) else v
     return bytes([6]) + der_len(len(c)) + c
 
 
+def int_octets(v):
+    """minimal two's-complement contents octets (an independent reading: Python's own conversion)"""
+    n = max(1, (v.bit_length() + 8) // 8) if v >= 0 else max(1, ((-v - 1).bit_length() + 8) // 8)
+    return v.to_bytes(n, "big", signed=True)
+
+
+def derived_ids(r):
+    """identifiers a truncated, sign-flipped or re-interpreted cell of identifier r would answer to"""
+    b = int_octets(r)
+    out = {r - 256, r + 256, -r, r - 1, r + 1, r - 65536, r + 65536, r ^ 0x80, r ^ 0x8000,
+           int.from_bytes(b, "big", signed=False),                       # the octets read as unsigned
+           int.from_bytes(b[-1:], "big", signed=True), b[-1],           # the last octet alone
+           int.from_bytes(b[:1], "big", signed=True), b[0],             # the first octet alone
+           int.from_bytes(b[-2:], "big", signed=True), int.from_bytes(b[-2:], "big", signed=False),
+           int.from_bytes(b[:2], "big", signed=True), int.from_bytes(b[:2], "big", signed=False),
+           (r & 0xffffffff), ((r & 0xffffffff) ^ 0x80000000) - 0x80000000,   # int / unsigned int
+           (r & 0xffff), ((r & 0xffff) ^ 0x8000) - 0x8000, (r & 0xff), ((r & 0xff) ^ 0x80) - 0x80}
+    if len(b) > 1 and b[0] == 0:
+        out.add(int.from_bytes(b[1:], "big", signed=True))               # the leading 00 dropped: 00 c8 -> c8 = -56
+    if len(b) > 1:
+        out.add(int.from_bytes(b[1:], "big", signed=False))
+    out.discard(r)
+    return sorted(x for x in out if -2**63 <= x < 2**63)
+
+
+def nonminimal(v):
+    """non-minimal BER contents for v (invalid by X.690 8.3.2, accepted by ber_decode_primitive)"""
+    b = int_octets(v)
+    pad = b"\xff" if v < 0 else b"\x00"
+    return [pad + b, pad + pad + b]
+
+
 def id_val_str(kind, v):
-    if kind == "int":
+    if kind in ("int", "enum"):
         return "I%d;" % v
     c = oid_contents(v) if isinstance(v, tuple) else v
     return "O%s;" % c.hex()
 
 
+def enum_name(v):
+    return "e%s%d" % ("m" if v < 0 else "", abs(v))
+
+
 def id_text(kind, v):
+    if kind == "enum":
+        return enum_name(v)
     return str(v) if kind == "int" else "{ %s }" % " ".join(str(a) for a in v)
 
 
 def id_xer(kind, v):
+    if kind == "enum":
+        return "<%s/>" % enum_name(v)
     return str(v) if kind == "int" else ".".join(str(a) for a in v)
 
 
@@ -86,23 +133,44 @@ class C18Gen:
                 return t, tree
         raise RuntimeError("could not generate a row type")
 
-    def module(self, name, idkind="int", ncols=None, lone=False, untagged=None, nrows=None):
+    SIMPLE = [{"k": "int"}, {"k": "bool"}, {"k": "oct"}, {"k": "null"}, {"k": "int", "con": (0, 255, False)},
+              {"k": "seq", "ms": [("a", {"k": "int"}, False), ("b", {"k": "bool"}, True)]}, {"k": "seqof", "el": {"k": "int"}},
+              {"k": "oct", "con": (0, 4, False)}, {"k": "int", "con": (-5, None, True)}, {"k": "choice", "ms": [("x", {"k": "int"}, False), ("y", {"k": "null"}, False)]}]
+
+    def module(self, name, idkind="int", ncols=None, lone=False, untagged=None, nrows=None, ids=None, idpool=None, order=None,
+               simple=False, samecol=False):
         """lone: the set contains an element set made of one object alone (asn1c drops it);
-        untagged: True = non-AUTOMATIC module, open-type members without tags (BER cannot decode them)"""
+        untagged: True = non-AUTOMATIC module, open-type members without tags;
+        idkind: int | oid | enum (identifier field `&id Kind`, Kind an ENUMERATED type);
+        ids: the identifiers of the rows, in row order (else drawn from idpool and put in `order`: None = as drawn, asc, desc);
+        simple: row types from a small fixed palette (many-row modules); samecol: two open-type members on the column &Type"""
         r = self.rng
         if untagged is None:
             untagged = r.chance(1, 6)
         default = r.choice(["EXPLICIT", "IMPLICIT"]) if untagged else r.choice(["AUTOMATIC", "AUTOMATIC", "EXPLICIT", "IMPLICIT"])
-        ncols = ncols or r.choice([1, 1, 2])
-        nrows = nrows or r.choice([2, 2, 3, 3, 4, 5, 6, 7, 8])
-        ids = r.shuffle(INT_IDS if idkind == "int" else OID_IDS)[:nrows]
+        ncols = 1 if samecol else (ncols or r.choice([1, 1, 2]))
+        mcols = [0, 0] if samecol else list(range(ncols))
+        if ids is None:
+            nrows = nrows or r.choice([2, 2, 3, 3, 4, 5, 6, 7, 8])
+            pool = idpool or {"int": INT_IDS, "oid": OID_IDS, "enum": ENUM_IDS}[idkind]
+            ids = r.shuffle(pool)[:nrows]
+            if order == "asc":
+                ids = sorted(ids)
+            elif order == "desc":
+                ids = sorted(ids, reverse=True)
+        ids = list(ids)
+        nrows = len(ids)
         defs, env, trees = [], {}, {}
         rows = []
         for i in range(nrows):
             tns = []
             for c in range(ncols):
                 tn = "%s%d" % ("RA"[c], i + 1)
-                t, tree = self.row_type(default, env)
+                if simple:
+                    t = self.SIMPLE[(i * ncols + c + r.below(3)) % len(self.SIMPLE)]
+                    tree = resolve(t, default, env)
+                else:
+                    t, tree = self.row_type(default, env)
                 defs.append((tn, t))
                 env[tn] = t
                 trees[tn] = tree
@@ -124,12 +192,21 @@ class C18Gen:
             k = r.range(2, nrows - 2)
             groups = [rows[:k], rows[k:]]
         # tags of the frame members
-        idbase = ("i", tagnum("UNIVERSAL", 2), None, None, False) if idkind == "int" else ("o", tagnum("UNIVERSAL", 6), 0, None, False)
+        # a range constraint on the identifier field changes the C type of the identifier member (long / unsigned long) and its PER encoding
+        idcon = None
+        if idkind == "int" and r.chance(1, 3):
+            fits = [c for c in [(0, 255), (0, 32767), (0, 65535), (-128, 127), (-32768, 32767), (0, 4294967295), (-2147483648, 2147483647)]
+                    if all(c[0] <= x <= c[1] for x in ids)]
+            if fits:
+                idcon = r.choice(fits)
+        idbase = {"int": ("i", tagnum("UNIVERSAL", 2), idcon[0] if idcon else None, idcon[1] if idcon else None, False), "enum": ("i", tagnum("UNIVERSAL", 10), None, None, False),
+                  "oid": ("o", tagnum("UNIVERSAL", 6), 0, None, False)}[idkind]
+        nmem = len(mcols)
         idtag_text, open_tag_text, open_tags = "", [], []
         if default == "AUTOMATIC":
             idtree = retag(idbase, tagnum("CONTEXT", 0))
-            open_tags = [tagnum("CONTEXT", 1 + j) for j in range(ncols)]
-            open_tag_text = [""] * ncols
+            open_tags = [tagnum("CONTEXT", 1 + j) for j in range(nmem)]
+            open_tag_text = [""] * nmem
         else:
             idtree = idbase
             if r.chance(1, 2):
@@ -138,7 +215,7 @@ class C18Gen:
                 idtag_text = tag_text((cls, num, mode))
                 eff = mode or default
                 idtree = ("x", tagnum(cls, num), idbase) if eff == "EXPLICIT" else retag(idbase, tagnum(cls, num))
-            for j in range(ncols):
+            for j in range(nmem):
                 if untagged:
                     open_tags.append(None)
                     open_tag_text.append("")
@@ -154,9 +231,12 @@ class C18Gen:
         else:
             syntax = "{ ID &id TYPE &Type AUX &Aux }" if style == "A" else "{ &Type IDENTIFIED BY &id WITH &Aux }"
             obj = (lambda i, t: "{ ID %s TYPE %s AUX %s }" % (i, t[0], t[1])) if style == "A" else (lambda i, t: "{ %s IDENTIFIED BY %s WITH %s }" % (t[0], i, t[1]))
-        idtype = "INTEGER" if idkind == "int" else "OBJECT IDENTIFIER"
-        lines = ["%s DEFINITIONS %s TAGS ::= BEGIN" % (name, default),
-                 "  MY-CLASS ::= CLASS { &id %s UNIQUE, &Type%s } WITH SYNTAX %s" % (idtype, ", &Aux" if ncols == 2 else "", syntax)]
+        idtype = {"int": "INTEGER", "oid": "OBJECT IDENTIFIER", "enum": "Kind"}[idkind]
+        idfield = idtype + (" (%d..%d)" % idcon if idcon else "")
+        lines = ["%s DEFINITIONS %s TAGS ::= BEGIN" % (name, default)]
+        if idkind == "enum":
+            lines.append("  Kind ::= ENUMERATED { %s }" % ", ".join("%s(%d)" % (enum_name(v), v) for v in r.shuffle(ids)))
+        lines.append("  MY-CLASS ::= CLASS { &id %s UNIQUE, &Type%s } WITH SYNTAX %s" % (idfield, ", &Aux" if ncols == 2 else "", syntax))
         extra, gtexts = [], []
         n = 0
         for g in groups:
@@ -164,7 +244,7 @@ class C18Gen:
             for row in g:
                 n += 1
                 idt = id_text(idkind, row["id"])
-                if r.chance(1, 4):
+                if idkind != "enum" and r.chance(1, 4):
                     extra.append("  idv%d %s ::= %s" % (n, idtype, idt))
                     idt = "idv%d" % n
                 o = obj(idt, row["types"])
@@ -186,23 +266,59 @@ class C18Gen:
         ms = ["id %sMY-CLASS.&id({MySet})" % idtag_text, "value %sMY-CLASS.&Type({MySet}{%s})" % (open_tag_text[0], at)]
         if ncols == 2:
             ms.append("aux %sMY-CLASS.&Aux({MySet}{%s})" % (open_tag_text[1], at))
+        if samecol:
+            ms.append("value2 %sMY-CLASS.&Type({MySet}{%s})" % (open_tag_text[1], at))
         lines.append("  Frame ::= SEQUENCE { %s }" % ", ".join(ms))
+        # the frame inside other types: a member and the elements of a SEQUENCE OF (the selector works on the right parent)
+        lines.append("  Wrap ::= SEQUENCE { pre BOOLEAN, inner Frame, list SEQUENCE OF Frame }")
         for tn, t in defs:
             lines.append("  %s ::= %s" % (tn, type_text(t)))
         lines.append("END")
-        m = {"name": name, "default": default, "defs": [("Frame", None)] + defs, "trees": trees, "text": "\n".join(lines) + "\n",
-             "idkind": idkind, "idtree": idtree, "open_tags": open_tags, "groups": groups, "rows": rows, "ncols": ncols,
-             "ext": ext, "lone": lone, "untagged": untagged}
+        m = {"name": name, "default": default, "defs": [("Frame", None), ("Wrap", None)] + defs, "trees": trees, "text": "\n".join(lines) + "\n",
+             "idkind": idkind, "idtree": idtree, "open_tags": open_tags, "groups": groups, "rows": rows, "ncols": ncols, "mcols": mcols,
+             "ext": ext, "lone": lone, "untagged": untagged, "simple": simple, "idcon": idcon, "members": ["value", "aux" if not samecol else "value2"][:nmem]}
         return m
 
 
+def mtypes(m, row):
+    """the type cells an identifier selects, one per open-type MEMBER of the frame"""
+    return [row["types"][c] for c in m["mcols"]]
+
+
+def der_split(b):
+    """(header length, contents length) of the TLV at the start of b (definite lengths)"""
+    i = 1
+    if b[0] & 0x1f == 0x1f:
+        while b[i] & 0x80:
+            i += 1
+        i += 1
+    if b[i] < 0x80:
+        return i + 1, b[i]
+    n = b[i] & 0x7f
+    return i + 1 + n, int.from_bytes(b[i + 1:i + 1 + n], "big")
+
+
+def wrap_der(m, inner, elems):
+    """DER of Wrap ::= SEQUENCE { pre BOOLEAN, inner Frame, list SEQUENCE OF Frame } from the DER of the frames"""
+    def body(f):
+        h, n = der_split(f)
+        return f[h:h + n]
+    lst = b"".join(elems)
+    if m["default"] == "AUTOMATIC":
+        c = b"\x80\x01\xff" + b"\xa1" + der_len(len(body(inner))) + body(inner) + b"\xa2" + der_len(len(lst)) + lst
+    else:
+        c = b"\x01\x01\xff" + inner + b"\x30" + der_len(len(lst)) + lst
+    return b"\x30" + der_len(len(c)) + c
+
+
 def frame_tokens(m, mode):
-    toks = [mode, model_str(m["idtree"]), ",".join("-" if t is None else str(t) for t in m["open_tags"]), str(m["ncols"]), str(len(m["groups"]))]
+    """mode: spec (the set as written) | comp (the emitted table, long cells) | wide (the emitted table, INTEGER_t cells)"""
+    toks = [mode, model_str(m["idtree"]), ",".join("-" if t is None else str(t) for t in m["open_tags"]), str(len(m["mcols"])), str(len(m["groups"]))]
     for g in m["groups"]:
         toks.append(str(len(g)))
         for row in g:
             toks.append(id_val_str(m["idkind"], row["id"]))
-            toks += [model_str(m["trees"][tn]) for tn in row["types"]]
+            toks += [model_str(m["trees"][tn]) for tn in mtypes(m, row)]
     return " ".join(toks)
 
 
@@ -233,3 +349,94 @@ def run_resilient(exe, lines, timeout=900):
         outs.append("CRASH")
         pos += len(out) + 1
     return outs, crashes, leak
+
+
+# ---------------------------------------------------------------- the emitted table, read back from the generated C
+
+import re as _re
+
+_VAL_RE = _re.compile(r"^static const ([A-Za-z_ ]+?) (asn_VAL_\w+) = (.*?);[ \t]*(?:/\*.*?\*/)?[ \t]*$", _re.M)
+_ROWS_RE = _re.compile(r"static const asn_ioc_cell_t (asn_IOS_\w+_rows)\[\] = \{(.*?)\n\};", _re.S)
+_CELL_RE = _re.compile(r'\{ "([^"]*)", (aioc__value|aioc__type), &asn_DEF_(\w+)(?:, &(asn_VAL_\w+))? \}')
+_SET_RE = _re.compile(r"static const asn_ioc_set_t (asn_IOS_\w+)\[\] = \{\s*(\d+), (\d+), (\w+)\s*\};")
+_SEL_RE = _re.compile(r"^select_(\w+?)_type\(.*?const asn_ioc_set_t \*itable = (\w+);\s*size_t constraining_column = (\d+);[^\n]*\n\s*size_t for_column = (\d+);"
+                      r".*?const ([A-Za-z_ ]+?) \*constraining_value = ", _re.S | _re.M)
+
+
+def c_string(lit):
+    """the bytes of a C string literal body (between the quotes), escapes as a C compiler reads them"""
+    out, i = bytearray(), 0
+    simple = {"n": 10, "t": 9, "r": 13, "0": 0, "\\": 92, '"': 34, "'": 39, "a": 7, "b": 8, "f": 12, "v": 11, "?": 63}
+    while i < len(lit):
+        ch = lit[i]
+        if ch != "\\":
+            out.append(ord(ch))
+            i += 1
+            continue
+        i += 1
+        e = lit[i]
+        if e == "x":
+            j = i + 1
+            while j < len(lit) and lit[j] in "0123456789abcdefABCDEF":
+                j += 1                                      # a hex escape takes every hex digit that follows
+            out.append(int(lit[i + 1:j], 16) & 0xff)
+            i = j
+        elif e in "01234567":
+            j = i
+            while j < len(lit) and j < i + 3 and lit[j] in "01234567":
+                j += 1
+            out.append(int(lit[i:j], 8) & 0xff)
+            i = j
+        else:
+            out.append(simple[e])
+            i += 1
+    return bytes(out)
+
+
+def parse_cell_value(ctype, init):
+    """value of one `static const <ctype> asn_VAL_x = <init>;`: ('long', z) | ('octets', bytes) | ('bad', why)"""
+    init = init.strip()
+    if ctype in ("long", "unsigned long"):
+        mt = _re.match(r"^\(?\s*(-?\d+)[uUlL]*\s*\)?$", init)
+        if not mt:
+            mt2 = _re.match(r"^\(\s*(-?\d+)[lL]*\s*-\s*1\s*\)$", init)
+            if mt2:
+                return ("long", int(mt2.group(1)) - 1)
+            return ("bad", "unreadable integer constant: " + init)
+        z = int(mt.group(1))
+        if not (-2**63 <= z < 2**64):
+            return ("bad", "constant does not fit the C type: " + init)
+        return ("long", z)
+    mt = _re.match(r'^\{\s*"((?:[^"\\]|\\.)*)"\s*,\s*(\d+)\s*\}$', init)
+    if not mt:
+        return ("bad", "unreadable initializer: " + init)
+    lit, size = c_string(mt.group(1)), int(mt.group(2))
+    if size > len(lit) + 1:
+        return ("bad", "size %d beyond the %d octets of the literal" % (size, len(lit)))
+    return ("octets", (lit + b"\0")[:size])
+
+
+def parse_ioc_tables(cfile):
+    """every object-set table of a generated .c file:
+    {set name: {rows, cols, cells: [[{field, kind, def, value}]]}}, {member: (set, constraining column, for column)}"""
+    text = open(cfile, errors="replace").read()
+    vals = {name: (ctype.strip(), parse_cell_value(ctype.strip(), init)) for ctype, name, init in _VAL_RE.findall(text)}
+    rowsets = {}
+    for name, body in _ROWS_RE.findall(text):
+        cells = []
+        for field, kind, d, v in _CELL_RE.findall(body):
+            cells.append({"field": field, "kind": kind, "def": d, "ctype": vals.get(v, (None, None))[0] if v else None,
+                          "value": vals.get(v, (None, ("bad", "no definition of " + v)))[1] if v else None})
+        ncells_text = body.count("{ \"")
+        rowsets[name] = (cells, ncells_text)
+    tables = {}
+    for name, nrows, ncols, rowsname in _SET_RE.findall(text):
+        cells, ntext = rowsets.get(rowsname, ([], -1))
+        nrows, ncols = int(nrows), int(ncols)
+        t = {"rows": nrows, "cols": ncols, "ncells": len(cells), "ncells_text": ntext,
+             "cells": [cells[i * ncols:(i + 1) * ncols] for i in range(nrows)] if ncols and len(cells) == nrows * ncols else None}
+        tables[name] = t
+    sels = {}
+    for member, setname, ccol, fcol, ctype in _SEL_RE.findall(text):
+        sels[member] = (setname, int(ccol), int(fcol), ctype.strip())
+    return tables, sels
